@@ -52,6 +52,17 @@ def main():
             sh(f'git -C /repo worktree remove --force {wt}')
             shutil.rmtree(wt, ignore_errors=True)
     print(json.dumps(out, indent=1))
+    if '--record' in flags:
+        meta = json.load(open(f'{d}/meta.json'))
+        meta['demo'] = meta.get('demo', 'demo.py')
+        meta['demo_exit_without_patch'] = out.get('demo_without_patch')
+        meta['demo_exit_with_patch'] = out.get('demo_with_patch')
+        meta.setdefault('check_runs', {})
+        for c, r in out['results'].items():
+            meta['check_runs'][f'{c}/{tier}' + ('/in-repo' if in_repo else '')] = {'exit': r['exit'], 'violation_lines': r['violations'], 'first': r['first'][:2], 'wall_s': r['wall_s'],
+                                                     'cmd': f'git apply patch.diff; ./check {c} --tier {tier}; undo'}
+        meta['detected_by'] = sorted({k.split('/')[0] for k, v in meta['check_runs'].items() if v['exit'] == 1})
+        json.dump(meta, open(f'{d}/meta.json', 'w'), indent=1)
 
 if __name__ == '__main__':
     main()
